@@ -6,7 +6,7 @@
 (* <<property id, predicate name>>.                                         *)
 (***************************************************************************)
 EXTENDS Naturals, Integers, Sequences, FiniteSets, SequencesExt,
-        FiniteSetsExt, Functions, TLC, Text, Vlq, SMap, Sem, Attr, Compose, Rope, ReplReq, EncM, DecM, SplitM, ReplaceM, ConcatM, HashM, LeafM, CombineM
+        FiniteSetsExt, Functions, TLC, Text, Vlq, SMap, Sem, Attr, Compose, Rope, RopeM, ReplReq, EncM, DecM, SplitM, ReplaceM, ConcatM, HashM, LeafM, CombineM
 
 NREG == 16
 EmptyHeap == [i \in 0..(NREG - 1) |-> Nil]
@@ -694,7 +694,8 @@ Checks(r, st) ==
            {<<"C16", "definedness_agrees">>} \cup
            (IF r.out.valid /\ FlatOf(r.a, r.pieces) # Invalid /\ FlatOf(r.b, r.pieces) # Invalid
               THEN {<<"C16", "no_panic">>, <<"C16", "unary_observers">>,
-                    <<"C16", "binary_observers">>, <<"C16", "byte_slices">>}
+                    <<"C16", "binary_observers">>, <<"C16", "byte_slices">>,
+                    <<"DRIFT", "rope_repr_follows_RopeM">>}
               ELSE {})
       [] r.op = "to_json" ->
            {<<"C15", "serialises">>} \cup
@@ -880,6 +881,11 @@ Holds(c, r, st) ==
          LET model == CombineStream(t, r.columns, r.final)
          IN r.out.ev = model.ev /\ r.out.end = model.end
     [] c = <<"DRIFT", "decoder_follows_DecM">> -> SegsOf(r.out.dec) = DecodeM(r.m).out
+    [] c = <<"DRIFT", "rope_repr_follows_RopeM">> ->
+         LET same(e, o) ==
+               LET m == ReprOf(e, r.pieces)
+               IN m.kind = "ok" => ("repr" \in DOMAIN o /\ o.repr.full = m.full /\ o.repr.ps = m.ps)
+         IN same(r.a, r.out.a) /\ same(r.b, r.out.b)
     [] c = <<"DRIFT", "hash_feed_follows_HashM">> -> r.out.feed = Blank(Feed(t))
     [] c = <<"DRIFT", "lock_refuses_as_modelled">> -> r.waited
     [] c = <<"DRIFT", "schedule_replayed">> ->
